@@ -49,6 +49,9 @@ class App(RecSession):
         m = re.search(r"9\d\d\d\d", text)
         tag = int(m.group(0)) - 90000 if m else -1
         self.calls.append(("query", tag, self.database, sql, dict(attrs), type(expression).__name__))
+        if "kaboom" in text:
+            from mysql_mimic.errors import MysqlError, ErrorCode
+            raise MysqlError("the application refuses this statement", ErrorCode.PARSE_ERROR)
         if "boom" in text:
             raise RuntimeError("application failure")
         return [(tag,)], ["tag"]
@@ -182,8 +185,12 @@ class Gen:
         if k == "rollback":
             return r.choice(["ROLLBACK", "rollback"]), self.rec("rollback", tag)
         if k == "fail":
-            if r.random() < 0.5:
-                return "SELECT a, %d FROM app.boom" % lit, self.rec("select", tag, dbs=["app"], fails=True)
+            if r.random() < 0.6:
+                # the application fails (any exception / a MysqlError of its own), also for statements that carry optimizer
+                # hints: it has seen the statement once and must not see it again
+                hint = r.choice(["", "", "/*+ SET_VAR(max_execution_time=100) */ ", "/*+ SET_VAR(sql_mode='ANSI') SET_VAR(autocommit=0) */ ", "/*+ NO_INDEX_MERGE(t) */ "])
+                tbl = r.choice(["app.boom", "app.kaboom", "app.kaboom"])
+                return "SELECT %sa, %d FROM %s" % (hint, lit, tbl), self.rec("select", tag, dbs=["app"], fails=True)
             return r.choice(["SET nonexistent_variable_x = 1", "SET GLOBAL autocommit = 1", "SET @uservar = 1"]), self.rec("set", tag, fails=True)
         t = r.choice(USER_TABLES + CAT_TABLES)
         sql = r.choice([
